@@ -243,6 +243,9 @@ func (r *Router) SendPacket(p simnet.Packet) error {
 		}
 	case "trunc":
 		n := act.N
+		if n < 0 {
+			n = len(data) / -n // negative: a fraction of the datagram
+		}
 		if n >= 0 && n < len(data) {
 			p.Data = append([]byte(nil), data[:n]...)
 			mod.TruncTo = n
